@@ -183,48 +183,64 @@ pub fn lpt_replay(a: &[String]) -> i32 {
     quiet_panics();
     let cases = read_ndjson(&a[0]);
     let mut out = Out::create(&a[1]);
-    for c in cases {
-        let sizes: Vec<u64> = c["sizes"].as_array().unwrap().iter().map(|v| v.as_u64().unwrap()).collect();
-        let rows: Vec<i64> = c["rows"].as_array().unwrap().iter().map(|v| v.as_i64().unwrap()).collect();
-        let n = c["n"].as_u64().unwrap() as usize;
-        let arr = c["arr"].as_i64().unwrap_or(0);
-        let set = Arc::new(build_set(&sizes, &rows, arr));
+    let sets: Arc<Vec<(SplitSet, usize)>> = Arc::new(
+        cases
+            .iter()
+            .map(|c| {
+                let sizes: Vec<u64> = c["sizes"].as_array().unwrap().iter().map(|v| v.as_u64().unwrap()).collect();
+                let rows: Vec<i64> = c["rows"].as_array().unwrap().iter().map(|v| v.as_i64().unwrap()).collect();
+                (build_set(&sizes, &rows, c["arr"].as_i64().unwrap_or(0)), c["n"].as_u64().unwrap() as usize)
+            })
+            .collect(),
+    );
+    // identical inputs -> bit-identical assignments: 4 threads run every instance concurrently (twice each)
+    let hs: Vec<_> = (0..4)
+        .map(|t| {
+            let sets = sets.clone();
+            std::thread::spawn(move || {
+                let mut v: Vec<Option<(String, String)>> = Vec::with_capacity(sets.len());
+                let order: Vec<usize> = if t % 2 == 0 { (0..sets.len()).collect() } else { (0..sets.len()).rev().collect() };
+                v.resize(sets.len(), None);
+                for i in order {
+                    let (s, n) = &sets[i];
+                    let r = catch(std::panic::AssertUnwindSafe(|| {
+                        (serde_json::to_string(&assign_lpt(s, *n)).unwrap(), serde_json::to_string(&assign_lpt(s, *n)).unwrap())
+                    }));
+                    v[i] = r.ok();
+                }
+                v
+            })
+        })
+        .collect();
+    let threaded: Vec<Vec<Option<(String, String)>>> = hs.into_iter().map(|h| h.join().unwrap_or_default()).collect();
+    for (i, c) in cases.iter().enumerate() {
+        let (set, n) = &sets[i];
+        let n = *n;
         let mut rec = c.clone();
-        let s0 = set.clone();
-        let first = catch(std::panic::AssertUnwindSafe(move || {
-            let a = assign_lpt(&s0, n);
+        let first = catch(std::panic::AssertUnwindSafe(|| {
+            let a = assign_lpt(set, n);
             let idle = a.idle_nodes();
             let imb = a.imbalance();
-            (serde_json::to_value(&a).unwrap(), idle, imb)
+            (serde_json::to_value(&a).unwrap(), serde_json::to_string(&a).unwrap(), idle, imb)
         }));
         match first {
             Err(p) => {
                 rec["panic"] = json!(1);
                 rec["msg"] = json!(p);
             }
-            Ok((v, idle, imb)) => {
-                // identical inputs -> bit-identical assignments: same set again, a deep clone, 4 threads x 3
+            Ok((v, text, idle, imb)) => {
+                // the same set again and a deep copy of it
                 let mut det = 1;
-                let again = serde_json::to_value(&assign_lpt(&set, n)).unwrap();
-                let cl: SplitSet = (*set).clone();
-                let cloned = serde_json::to_value(&assign_lpt(&cl, n)).unwrap();
-                if again != v || cloned != v {
+                let again = serde_json::to_string(&assign_lpt(set, n)).unwrap();
+                let cl: SplitSet = set.clone();
+                let cloned = serde_json::to_string(&assign_lpt(&cl, n)).unwrap();
+                if again != text || cloned != text {
                     det = 0;
                 }
-                let hs: Vec<_> = (0..4)
-                    .map(|_| {
-                        let s = set.clone();
-                        std::thread::spawn(move || (0..3).map(|_| serde_json::to_value(&assign_lpt(&s, n)).unwrap()).collect::<Vec<_>>())
-                    })
-                    .collect();
-                for h in hs {
-                    match h.join() {
-                        Ok(vs) => {
-                            if vs.iter().any(|x| *x != v) {
-                                det = 0;
-                            }
-                        }
-                        Err(_) => det = 0,
+                for t in &threaded {
+                    match t.get(i) {
+                        Some(Some((x, y))) if *x == text && *y == text => {}
+                        _ => det = 0,
                     }
                 }
                 rec["panic"] = json!(0);
@@ -245,10 +261,20 @@ pub fn lpt_replay(a: &[String]) -> i32 {
     0
 }
 
-fn table_ctx(paths: &[PathBuf]) -> Result<query_engine::ExecutionContext, String> {
-    let t = query_engine::ParquetTable::try_from_files(paths.to_vec()).map_err(|e| e.to_string())?;
+/// A node's context serving table `t` from its copy of the files.  `viadir`: through the public
+/// `register_parquet(directory)`; otherwise an explicit file list in the given order (what the Iceberg
+/// path produces).  No files at all: the node simply does not have the table.
+fn table_ctx(paths: &[PathBuf], viadir: bool) -> Result<query_engine::ExecutionContext, String> {
     let mut c = query_engine::ExecutionContext::new();
-    c.register_table_provider("t", Arc::new(t));
+    if paths.is_empty() {
+        return Ok(c);
+    }
+    if viadir {
+        c.register_parquet("t", paths[0].parent().unwrap()).map_err(|e| e.to_string())?;
+    } else {
+        let t = query_engine::ParquetTable::try_from_files(paths.to_vec()).map_err(|e| e.to_string())?;
+        c.register_table_provider("t", Arc::new(t));
+    }
     Ok(c)
 }
 
@@ -283,12 +309,15 @@ pub fn gate_replay(a: &[String]) -> i32 {
         let n = c["n"].as_u64().unwrap() as usize;
         let idx = c["idx"].as_i64().unwrap();
         let tamper = c["tamper"].as_i64().unwrap_or(0);
+        // probe: a statement that cannot be planned; if its error surfaces, the fragment's SQL ran before the gate
+        let sql = if c["probe"].as_i64().unwrap_or(0) == 1 { "SELECT no_such_column_qev FROM t" } else { "SELECT id FROM t" };
         let mut rec = c.clone();
         rec["init"] = json!(iinv);
         rec["work"] = json!(winv);
         let r = catch(std::panic::AssertUnwindSafe(|| -> Result<Value, String> {
-            let ictx = table_ctx(&ipaths)?;
-            let wctx = table_ctx(&wpaths)?;
+            let viadir = c["viadir"].as_i64().unwrap_or(0) == 1;
+            let ictx = table_ctx(&ipaths, viadir).map_err(|e| format!("initiator: {e}"))?;
+            let wctx = table_ctx(&wpaths, viadir).map_err(|e| format!("worker: {e}"))?;
             // initiator side: its own split universe, digest and assignment
             let iset = splits_of(&ictx, "t", n).map_err(|e| format!("initiator splits_of: {e}"))?;
             let digest = iset.digest() ^ (tamper as u64);
@@ -308,11 +337,11 @@ pub fn gate_replay(a: &[String]) -> i32 {
             };
             let wdigest = splits_of(&wctx, "t", n).map(|s| s.digest()).ok();
             let req: Result<FragmentRequest, String> = if idx >= 0 {
-                Ok(FragmentRequest { sql: "SELECT id FROM t".into(), table: "t".into(), shard_index: idx as usize,
+                Ok(FragmentRequest { sql: sql.into(), table: "t".into(), shard_index: idx as usize,
                                      shard_count: n, splits_digest: digest })
             } else {
                 // wire form without a shard index
-                serde_json::from_value(json!({"sql": "SELECT id FROM t", "table": "t", "shard_count": n, "splits_digest": digest}))
+                serde_json::from_value(json!({"sql": sql, "table": "t", "shard_count": n, "splits_digest": digest}))
                     .map_err(|e| format!("request rejected at decode: {e}"))
             };
             let mut o = json!({"digest_eq": if wdigest == Some(digest) { 1 } else { 0 },
@@ -323,16 +352,20 @@ pub fn gate_replay(a: &[String]) -> i32 {
                     o["outcome"] = json!("refused");
                     o["err"] = json!(e);
                     o["ids"] = json!([]);
+                    o["ran_sql"] = json!(0);
                 }
                 Ok(req) => match rt.block_on(execute_fragment(&wctx, &req)) {
                     Ok((res, _stats)) => {
                         o["outcome"] = json!("answered");
                         o["err"] = json!("");
                         o["ids"] = json!(ids_of(&res));
+                        o["ran_sql"] = json!(1);
                     }
                     Err(e) => {
+                        let text = e.to_string();
                         o["outcome"] = json!("refused");
-                        o["err"] = json!(e.to_string().chars().take(160).collect::<String>());
+                        o["ran_sql"] = json!(if text.contains("no_such_column_qev") { 1 } else { 0 });
+                        o["err"] = json!(text.chars().take(160).collect::<String>());
                         o["ids"] = json!([]);
                     }
                 },
